@@ -656,3 +656,154 @@ def to_isar(schema, order=None, messages=()):
         body.append(render_def_isar(d, patch, as_message=n in messages))
     xml = '<?xml version="1.0" encoding="utf-8"?>\n<x>\n%s\n</x>\n' % '\n'.join(body)
     return xml, ('\n'.join(patch) + '\n') if patch else None
+
+
+def to_isar_variants(schema, rng):
+    """isar XML + patch using, per member/struct, a randomly chosen one of the documented ways to say the same thing
+    (dimension forms, message vs struct, negative enumerators, and every patch action).
+    -> (xml, patch text or None, forms used)"""
+    patch = []
+    forms = set()
+    body = []
+    for d in schema.defs:
+        if d.kind == 'enum':
+            mem = []
+            for n, v, t in d.members:
+                if not t and v >= 0x80000000 and rng.random() < 0.7:
+                    forms.add('negative-enumerator')
+                    mem.append('\n    <enum-member name="%s" value="%d"/>' % (n, v - (1 << 32)))
+                else:
+                    mem.append('\n    <enum-member name="%s" value="%s"/>' % (n, _xml_escape(t if t else v)))
+            body.append('<enum name="%s">%s\n</enum>' % (d.name, ''.join(mem)))
+            continue
+        if d.kind != 'struct':
+            body.append(render_def_isar(d, patch))
+            continue
+        # struct as union + 'struct' patch (only all-plain structs)
+        if all(m.kind == PLAIN for m in d.members) and rng.random() < 0.15:
+            forms.add('patch-struct')
+            arms = ''.join('\n    <member name="%s" type="%s" discriminatorValue="%d"/>' % (m.name, m.type, i + 1)
+                           for i, m in enumerate(d.members))
+            body.append('<union name="%s">%s\n</union>' % (d.name, arms))
+            patch.append('%s struct' % d.name)
+            continue
+        sizers = set(m.sizer for m in d.members if m.kind == EXT)
+        sizer_users = {}
+        for m in d.members:
+            if m.kind == EXT:
+                sizer_users.setdefault(m.sizer, []).append(m)
+        has_limited = any(m.kind == LIMITED for m in d.members)
+        as_message = (not has_limited) and rng.random() < 0.3
+        xml_name = d.name
+        if rng.random() < 0.1:
+            forms.add('patch-rename-node')
+            xml_name = d.name + 'Old'
+        local_patch = []
+        out = []
+        skip = set()
+        for idx, m in enumerate(d.members):
+            if m.name in skip:
+                continue
+            t = 'u8' if m.type == 'byte' else m.type
+            name = m.name
+            pre = []
+            if m.type == 'byte':
+                local_patch.append('%s type %s byte' % (xml_name, m.name))
+            sz = _xml_escape(m.size_text if m.size_text else m.size)
+            r = rng.random()
+            if m.kind == PLAIN and m.name not in sizers:
+                if r < 0.08 and out:      # isar drops a struct element without members, keep one in the XML
+                    forms.add('patch-insert')
+                    # index among the model's members at the time the rule runs: earlier members are already in
+                    # their final form (dynamic/limited arrays carry their counter as a member of its own)
+                    midx = sum(2 if x.kind in (DYNAMIC, LIMITED) else 1 for x in d.members[:idx])
+                    local_patch.append('%s insert %d %s %s' % (xml_name, midx, m.name, t))
+                    continue
+                if r < 0.16:
+                    forms.add('patch-rename-member')
+                    out.append('<member name="%s_x" type="%s"/>' % (m.name, t))
+                    local_patch.append('%s rename %s_x %s' % (xml_name, m.name, m.name))
+                    continue
+                if r < 0.24:
+                    forms.add('patch-type')
+                    out.append('<member name="%s" type="u64"/>' % m.name)
+                    local_patch.append('%s type %s %s' % (xml_name, m.name, t))
+                    continue
+                if r < 0.30:
+                    forms.add('patch-remove')
+                    out.append('<member name="%s" type="%s"/>' % (m.name, t))
+                    out.append('<member name="%s_bogus" type="u64"/>' % m.name)
+                    local_patch.append('%s remove %s_bogus' % (xml_name, m.name))
+                    continue
+                out.append('<member name="%s" type="%s"/>' % (m.name, t))
+            elif m.kind == PLAIN:
+                # a sizer: may be expressed through the array's dimension (isVariableSize + variableSizeFieldType)
+                users = sizer_users[m.name]
+                nxt = d.members[idx + 1] if idx + 1 < len(d.members) else None
+                if (len(users) == 1 and nxt is users[0] and m.name == nxt.name + '_len' and m.type in INTS
+                        and rng.random() < 0.7):
+                    forms.add('isVariableSize+variableSizeFieldType')
+                    nt = 'u8' if nxt.type == 'byte' else nxt.type
+                    if nxt.type == 'byte':
+                        local_patch.append('%s type %s byte' % (xml_name, nxt.name))
+                    extra = ' size="7"' if as_message else ''
+                    out.append('<member name="%s" type="%s"><dimension isVariableSize="true"%s '
+                               'variableSizeFieldType="%s"/></member>' % (nxt.name, nt, extra, m.type))
+                    skip.add(nxt.name)
+                    continue
+                out.append('<member name="%s" type="%s"/>' % (m.name, t))
+            elif m.kind == OPTIONAL:
+                out.append('<member name="%s" type="%s" optional="true"/>' % (m.name, t))
+            elif m.kind == FIXED:
+                if r < 0.2 and not m.size_text:
+                    forms.add('patch-static')
+                    out.append('<member name="%s" type="%s"/>' % (m.name, t))
+                    local_patch.append('%s static %s %s' % (xml_name, m.name, m.size))
+                elif r < 0.5 and not m.size_text and m.size % 2 == 0:
+                    forms.add('size*size2')
+                    out.append('<member name="%s" type="%s"><dimension size="%d" size2="2"/></member>' % (m.name, t, m.size // 2))
+                else:
+                    forms.add('size')
+                    out.append('<member name="%s" type="%s"><dimension size="%s"/></member>' % (m.name, t, sz))
+            elif m.kind == DYNAMIC:
+                if r < 0.25:
+                    forms.add('patch-dynamic')
+                    out.append('<member name="num_of_%s" type="u32"/>' % m.name)
+                    out.append('<member name="%s" type="%s"><dimension size="3"/></member>' % (m.name, t))
+                    local_patch.append('%s dynamic %s num_of_%s' % (xml_name, m.name, m.name))
+                else:
+                    forms.add('isVariableSize' + ('-in-message' if as_message else ''))
+                    extra = ' size="5"' if as_message and rng.random() < 0.5 else ''
+                    out.append('<member name="%s" type="%s"><dimension isVariableSize="true"%s '
+                               'variableSizeFieldName="num_of_%s"/></member>' % (m.name, t, extra, m.name))
+            elif m.kind == LIMITED:
+                if r < 0.3:
+                    forms.add('patch-limited')
+                    out.append('<member name="num_of_%s" type="u32"/>' % m.name)
+                    out.append('<member name="%s" type="%s"><dimension size="%s"/></member>' % (m.name, t, sz))
+                    local_patch.append('%s limited %s num_of_%s' % (xml_name, m.name, m.name))
+                else:
+                    forms.add('isVariableSize+size')
+                    out.append('<member name="%s" type="%s"><dimension isVariableSize="true" size="%s" '
+                               'variableSizeFieldName="num_of_%s"/></member>' % (m.name, t, sz, m.name))
+            elif m.kind == EXT:
+                if m.sizer == 'numOf' + m.name[0].upper() + m.name[1:] and r < 0.7:
+                    forms.add('THIS_IS_VARIABLE_SIZE_ARRAY')
+                    out.append('<member name="%s" type="%s"><dimension size="THIS_IS_VARIABLE_SIZE_ARRAY"/></member>' % (m.name, t))
+                else:
+                    forms.add('@sizer')
+                    out.append('<member name="%s" type="%s"><dimension isVariableSize="true" '
+                               'variableSizeFieldName="@%s"/></member>' % (m.name, t, m.sizer))
+            elif m.kind == GREEDY:
+                forms.add('patch-greedy')
+                out.append('<member name="%s" type="%s"><dimension size="1"/></member>' % (m.name, t))
+                local_patch.append('%s greedy %s' % (xml_name, m.name))
+        if xml_name != d.name:
+            local_patch.append('%s rename %s' % (xml_name, d.name))
+        patch.extend(local_patch)
+        tag = 'message' if as_message else 'struct'
+        if as_message:
+            forms.add('message')
+        body.append('<%s name="%s">%s\n</%s>' % (tag, xml_name, ''.join('\n    ' + x for x in out), tag))
+    xml = '<?xml version="1.0" encoding="utf-8"?>\n<x>\n%s\n</x>\n' % '\n'.join(body)
+    return xml, ('\n'.join(patch) + '\n') if patch else None, forms
